@@ -62,7 +62,7 @@ def run (j : Json) : Except String Json := do
       else ""
   let inDom := domainWhy == ""
   return Json.mkObj [("agree", model == impl && inDom), ("holds", holds), ("in_domain", inDom), ("domain_why", domainWhy), ("model_holds", modelHolds), ("clauses", toJson (clausesC05 evs errText rootError impl)),
-    ("why", if holds then "" else if strFailed then "str(exc) raised: the error has no message" else if unrendered then "the message of an error in the trace could not be rendered: its __str__ raised" else if !tailOK then "the message does not end with the type and message of the original error" else "the trace does not begin with the root target / list the failing path in order / show the failing spec's target / show every failed branch"),
+    ("why", if holds then "" else if strFailed then "str(exc) raised: the error has no message" else if unrendered then "the message of an error in the trace could not be rendered: its __str__ raised" else if !tailOK then "the message does not end with the type and message of the original error" else "the trace does not begin with the root target / list the failing path in order / show the failing spec's target / show every failed branch / stop at the failing spec (it lists a spec that returned normally below it)"),
     ("model", Json.mkObj [("trace", model)]),
     ("branch", (if branching then "branching" else "linear") ++ (if chained then "+chain" else "") ++
                s!"-rows{rows.length}")]
